@@ -3,6 +3,7 @@ import functools
 import itertools
 
 from framework import Issue
+import fam_lru_order
 from world import Susp, UserExc, UserBaseExc, exc_name, asyncstdlib
 from props.c10 import P, I0, I1, I2, F1, BT, SA, py_args
 
@@ -132,7 +133,16 @@ def _run_real(case):
 
 
 def observe(case):
+    if case.get("family") == "lruorder":
+        return fam_lru_order.observe(case)
     return _run_real(case)
+
+
+def model_requests(case, obs):
+    """(one model run per case; the `lruorder` family builds its request from the executed steps)"""
+    if case.get("family") == "lruorder":
+        return [fam_lru_order.model_request(case, obs)]
+    return [model_request(case)]
 
 
 def model_request(case):
@@ -201,6 +211,10 @@ def _oracle(case, obs):
 
 def judge(case, obs, model):
     issues = []
+    if isinstance(model, list):
+        model = model[0] if model else None
+    if case.get("family") == "lruorder":
+        return fam_lru_order.judge(case, obs, model)
     tag, detail = _oracle(case, obs)
     if tag is not None:
         issues.append(Issue("oracle", dict(detail, steps=obs["steps"]), tag))
@@ -218,6 +232,8 @@ def judge(case, obs, model):
 
 
 def features(case, obs):
+    if case.get("family") == "lruorder":
+        return fam_lru_order.features(case, obs)
     f = ["maxsize=%s" % case["maxsize"], "typed=%s" % case["typed"], "tasks=%d" % (len(case["tasks"]) - 1),
          "sched=%d" % (10 * (len(case["sched"]) // 10))]
     if any(k == "x" for k, _ in case["sched"]):
@@ -237,6 +253,8 @@ def features(case, obs):
 
 
 def nontrivial(case, obs):
+    if case.get("family") == "lruorder":
+        return fam_lru_order.nontrivial(case, obs)
     return any(st["inflight"] >= 2 for st in obs["steps"])
 
 
@@ -361,6 +379,8 @@ def random_case(rng):
 
 def cases(tier, rng):
     yield from _exhaustive(tier)
+    # the ORDER of the cache after every step of hand-scheduled overlapping calls (C11_order_*, driver `lruorder`)
+    yield from fam_lru_order.cases(rng, 1500 if tier == "quick" else 15000)
     for _ in range(10000 if tier == "quick" else 60000):
         yield random_case(rng)
 
